@@ -499,6 +499,25 @@ func IntToken(d []byte) (ok, isInt bool, val *big.Int, end int) {
 			return true, false, nil, e
 		}
 	}
+	// big.Int.SetString is quadratic: a literal of more than 1001 significant digits (only
+	// its sign and the fact that it is beyond every machine type matter to any caller) is
+	// represented by +-10^1001
+	tok := d[i:e]
+	neg := len(tok) > 0 && tok[0] == '-'
+	digs := tok
+	if neg {
+		digs = digs[1:]
+	}
+	for len(digs) > 1 && digs[0] == '0' {
+		digs = digs[1:]
+	}
+	if len(digs) > 1001 {
+		v := new(big.Int).Exp(big.NewInt(10), big.NewInt(1001), nil)
+		if neg {
+			v.Neg(v)
+		}
+		return true, true, v, e
+	}
 	v, good := new(big.Int).SetString(string(d[i:e]), 10)
 	if !good {
 		panic("ref.IntToken: big.Int rejected an integer token")
